@@ -419,7 +419,10 @@ fn jtoken_to_runtime_object(
                 } else if p == "#n" {
                     name = Some(value_str(&pv, "#n")?.to_string());
                 } else {
-                    let named_content_item = jtoken_to_runtime_object(tok, pv, Some(p.clone()))?;
+                    tok.enter_nested()?;
+                    let item = jtoken_to_runtime_object(tok, pv, Some(p.clone()));
+                    tok.leave_nested();
+                    let named_content_item = item?;
 
                     let named_content_item = match named_content_item {
                         ArrayElement::RTObject(rt_obj) => rt_obj,
